@@ -795,6 +795,8 @@ pub fn run_c08(o: &Opts) -> Report {
             }
         }
     }
+    // the lexical half of "depends only on format and input": state kept across calls (see lexprops::lex_state_search)
+    crate::lexprops::c08_lexical_state(o, cx.rep);
     let cases = std::mem::take(&mut cx.cases);
     finish(o, "C08", rep, cases)
 }
